@@ -5,6 +5,12 @@ import json, sys
 ALL = ["C%02d" % i for i in range(1, 21)]
 
 CHECKS = {
+ "C19": dict(
+   level="exploration",
+   text="Bounded-exhaustive enumeration of table lists (all length vectors over 0..9 for up to 4 tables, cyclic lengths covering every residue mod 4 for 5..40 tables, 4 byte patterns, 4 spare-capacity settings aliasing a shared backing array, 3 tag layouts) plus every corpus face rewritten; each output is decoded by an independent directory reader and by the library's loader.",
+   note="Oracle is a 40-line sfnt reader + spec checksum written from the OpenType spec. Table-offset alignment and the n=0 header fields are reported, not judged.",
+   technique="bounded exhaustive enumeration of inputs (small-scope model checking of a pure function against a reference decoder, E1)",
+   design="1/C19", engine="E1 enum"),
  "C20": dict(
    level="exploration",
    text="Complete enumeration of finite domains: every code point through every lookup against a linear walk of the exported tables and two independent references (Go unicode, x/text norm); all Direction bytes; all language-table entries; all tag strings of length <= 4 over a 12-symbol alphabet. exhaustive:true without a bound for the code-point and Direction clauses.",
